@@ -98,3 +98,16 @@ Theorem C03_formatter_is_source : forall F first st,
   (fst end_string, st) = run_method m_end_string F first st.
 Proof. exact formatter_model_is_translated_source. Qed.
 Print Assumptions C03_formatter_is_source.
+
+(* ---- the text map-key serializer is the 31 method bodies of src/ser.rs as TRANSLATED ON THIS RUN (tools/translate_keys.py -> Gen/KeyTables.v) ---- *)
+From SJ Require Import Base.Bytes Base.Utf8 Model.Read Model.Num Model.Sval Model.Ser Model.ValueSer Model.KeyAst Gen.KeyTables.
+From SJ Require Import Proofs.SerKeys.
+Theorem C03_key_serializer_is_source : forall fmt32 fmt64 k,
+  key_ser fmt32 fmt64 k = text_meaning fmt32 fmt64 (key_ser fmt32 fmt64) (klookup KEY_TEXT (method_of k)) k.
+Proof. exact SerKeys.key_ser_is_table. Qed.
+Print Assumptions C03_key_serializer_is_source.
+
+Theorem C03_key_tables_agree : forall m, klookup KEY_TEXT m = klookup KEY_VALUE m /\ klookup KEY_TEXT m <> None.
+Proof. exact SerKeys.key_tables_agree. Qed.
+Print Assumptions C03_key_tables_agree.
+
